@@ -596,6 +596,38 @@ def product_units(ctx, rule="C02.product-units"):
     ctx.floor(rule, 4)
 
 
+def derived_data(ctx, rule="C02.derived-data"):
+    ctx.explain(f"{rule}: the Decomposition classes (Interferometer, GraphEmbed, BipartiteGraphEmbed, GaussianTransform, Gaussian) compute "
+                "the data their _decompose uses (U1, U2, Sq, sq, active, identity flags ...) from the matrix at CONSTRUCTION: no method of "
+                "Decomposition or of a subclass rebinds `.p` of an operation object (of self or of a copy of self) - the object would "
+                "decompose into the gates of the old matrix. A merged operation is a new instance built from the product matrix.")
+    n = 0
+    for cls in ctx.tree.module("ops.py").classes.values():
+        if not (cls.name == "Decomposition" or cls.is_subclass_of("Decomposition")):
+            continue
+        for name, f in sorted(cls.methods.items()):
+            if name == "__init__":
+                continue
+            n += 1
+            bad = None
+            for st in walk_no_nested(f.node):
+                tg = st.targets if isinstance(st, ast.Assign) else [st.target] if isinstance(st, (ast.AugAssign, ast.AnnAssign)) else []
+                for t in tg:
+                    for x in ast.walk(t):
+                        if isinstance(x, ast.Attribute) and x.attr == "p" and isinstance(x.ctx, ast.Store):
+                            bad = st
+                        if isinstance(x, ast.Subscript) and isinstance(x.value, ast.Attribute) and x.value.attr == "p" and isinstance(x.ctx, ast.Store):
+                            bad = st
+                if isinstance(st, ast.Call) and dotted(st.func) == "setattr" and len(st.args) >= 2 and \
+                        isinstance(st.args[1], ast.Constant) and st.args[1].value == "p":
+                    bad = st
+            ctx.ob(rule, f.site, bad is None, "" if bad is None else f"`{ast.unparse(bad)[:60]}`: the matrix of a Decomposition object is replaced "
+                   "after construction - U1 / U2 / Sq / identity flags computed in __init__ still describe the old matrix",
+                   role="p-rebound", line=(bad.lineno if bad is not None else f.node.lineno))
+    ctx.require(n >= 8, f"only {n} methods of Decomposition classes found in ops.py")
+    ctx.floor(rule, 8)
+
+
 def rules(ctx):
     dagger_products(ctx)
     first_param(ctx)
@@ -607,6 +639,7 @@ def rules(ctx):
     prep_every_mode(ctx)
     zero_is_identity(ctx)
     pure_decompose(ctx)
+    derived_data(ctx)
     product_units(ctx)
     from . import common_backend as _Bk
     _Bk.polar_pair(ctx, "C02.polar", ("ops.py", "decompositions.py"))
